@@ -24,6 +24,10 @@ ASSUMPTIONS = [
     "continuity: |jump| <= 4 K eps_M for the lookback (|dPrice/dM| <= 1) and <= eps_M (1 + 1/(sigma sqrt t)) for the American binary with spot "
     "and running max just below the strike",
 ]
+ANCHORS = ['pfhedge.nn.functional:bs_european_price',
+           'pfhedge.nn.functional:bs_european_binary_price',
+           'pfhedge.nn.functional:bs_american_binary_price',
+           'pfhedge.nn.functional:bs_lookback_price']
 DECIDING = ["parity.european", "parity.binary", "bounds.call", "bounds.binaries", "monotone.spot", "convex.spot", "monotone.vol", "monotone.time",
             "lookback.dominance", "american.dominance", "american.one_at_barrier", "continuity.lookback", "continuity.american"]
 REQUIRED_BRANCHES = ["max==strike>spot", "float32", "float64"]
